@@ -4,6 +4,7 @@ package c16
 import (
 	"fmt"
 	"strings"
+	"time"
 
 	"github.com/cedar-policy/cedar-go/types"
 	"github.com/cedar-policy/cedar-go/verif/core"
@@ -16,7 +17,9 @@ import (
 
 var names = []types.Ident{"A", "B", "C"}
 
-func uid(t, id string) types.EntityUID { return types.NewEntityUID(types.EntityType(t), types.String(id)) }
+func uid(t, id string) types.EntityUID {
+	return types.NewEntityUID(types.EntityType(t), types.String(id))
+}
 
 // battery: policies / entities / requests thrown at a resolved schema; everything must return.
 func battery(t *core.T, sig, desc string, rs *resolved.Schema) {
@@ -254,7 +257,11 @@ func referenceFamily() *core.Family {
 	for ri, r := range refs {
 		ri, r := ri, r
 		vs = append(vs,
-			variant{fmt.Sprintf("attr-type-%d", ri), func() *sast.Schema { s := base(); s.Entities["U"] = sast.Entity{Shape: sast.RecordType{"a": sast.Attribute{Type: r}}}; return s }},
+			variant{fmt.Sprintf("attr-type-%d", ri), func() *sast.Schema {
+				s := base()
+				s.Entities["U"] = sast.Entity{Shape: sast.RecordType{"a": sast.Attribute{Type: r}}}
+				return s
+			}},
 			variant{fmt.Sprintf("tags-type-%d", ri), func() *sast.Schema { s := base(); s.Entities["U"] = sast.Entity{Tags: r}; return s }},
 			variant{fmt.Sprintf("common-type-%d", ri), func() *sast.Schema { s := base(); s.CommonTypes["T"] = sast.CommonType{Type: r}; return s }},
 			variant{fmt.Sprintf("context-type-%d", ri), func() *sast.Schema {
@@ -274,7 +281,11 @@ func referenceFamily() *core.Family {
 	for _, pt := range []sast.EntityTypeRef{"Nope", "NS::Nope", "Color", "T", "", "NS::V", "U"} {
 		pt := pt
 		vs = append(vs,
-			variant{"parent-type-" + string(pt), func() *sast.Schema { s := base(); s.Entities["G"] = sast.Entity{ParentTypes: []sast.EntityTypeRef{pt}}; return s }},
+			variant{"parent-type-" + string(pt), func() *sast.Schema {
+				s := base()
+				s.Entities["G"] = sast.Entity{ParentTypes: []sast.EntityTypeRef{pt}}
+				return s
+			}},
 			variant{"principal-type-" + string(pt), func() *sast.Schema {
 				s := base()
 				s.Actions["view"] = sast.Action{AppliesTo: &sast.AppliesTo{Principals: []sast.EntityTypeRef{pt}, Resources: []sast.EntityTypeRef{pt}}}
@@ -286,7 +297,13 @@ func referenceFamily() *core.Family {
 	for _, nm := range []types.Ident{"U", "Color", "T", "Long", "Set", "Action"} {
 		nm := nm
 		vs = append(vs,
-			variant{"ns-entity-named-" + string(nm), func() *sast.Schema { s := base(); ns := s.Namespaces["NS"]; ns.Entities[nm] = sast.Entity{}; s.Namespaces["NS"] = ns; return s }},
+			variant{"ns-entity-named-" + string(nm), func() *sast.Schema {
+				s := base()
+				ns := s.Namespaces["NS"]
+				ns.Entities[nm] = sast.Entity{}
+				s.Namespaces["NS"] = ns
+				return s
+			}},
 			variant{"ns-type-named-" + string(nm), func() *sast.Schema {
 				s := base()
 				ns := s.Namespaces["NS"]
@@ -310,9 +327,19 @@ func referenceFamily() *core.Family {
 		)
 	}
 	vs = append(vs,
-		variant{"ns-action-named-view", func() *sast.Schema { s := base(); ns := s.Namespaces["NS"]; ns.Actions["view"] = sast.Action{}; s.Namespaces["NS"] = ns; return s }},
+		variant{"ns-action-named-view", func() *sast.Schema {
+			s := base()
+			ns := s.Namespaces["NS"]
+			ns.Actions["view"] = sast.Action{}
+			s.Namespaces["NS"] = ns
+			return s
+		}},
 		variant{"empty-schema", func() *sast.Schema { return &sast.Schema{} }},
-		variant{"nil-appliesTo-lists", func() *sast.Schema { s := base(); s.Actions["view"] = sast.Action{AppliesTo: &sast.AppliesTo{}}; return s }},
+		variant{"nil-appliesTo-lists", func() *sast.Schema {
+			s := base()
+			s.Actions["view"] = sast.Action{AppliesTo: &sast.AppliesTo{}}
+			return s
+		}},
 		variant{"enum-no-values", func() *sast.Schema { s := base(); s.Enums["Color"] = sast.Enum{}; return s }},
 		variant{"enum-as-principal", func() *sast.Schema {
 			s := base()
@@ -340,8 +367,9 @@ func referenceFamily() *core.Family {
 
 func Check() *core.Check {
 	return &core.Check{
-		ID:    "C16",
-		Title: "Schema resolution and validation terminate without crashing on every input",
+		ID:        "C16",
+		HangAfter: 60 * time.Second, // cases take milliseconds (see max_case_s in the evidence)
+		Title:     "Schema resolution and validation terminate without crashing on every input",
 		Rule: "bounded-exhaustive over a 3-name universe, each dimension exhaustively with the others at a base value: all 512 entity parent-type digraphs, all 2197 common-type body assignments (every cycle), all 512 action-group digraphs, undefined / qualified / built-in / nil references in every reference position, shadowing of every declaration kind; every schema that resolves is run through a battery of policies (every scope form and in / is / is-in between every pair of types; literals that are sets, records and extension values as JSON-decoded policies contain them; unknown and receiver-less extension calls), entities and requests in both modes; everything must return (no panic; no fatal error: cases run in isolated worker processes); " +
 			"a case is non-trivial if the schema resolved (so the validation battery ran)",
 		Assumptions: []string{"pairs of dimensions are not combined (one dimension at a time)", "a nil type inside a programmatically built schema AST is outside the domain (no decoder produces one)"},
